@@ -40,6 +40,10 @@ pub struct Case {
     /// alleles (first site A/C, second G/T): two loci of one split k-mer family, every (k-1)-mer still unique
     #[serde(default)]
     pub twin_flanks: bool,
+    /// (reference mode) the reference starts later than the samples do: its first base lies 9..k-2 bases before the
+    /// first site (a sub-region reference, or a replicon linearised elsewhere)
+    #[serde(default)]
+    pub ref_trim: Option<u8>,
 }
 
 fn case_strategy(with_ref: bool) -> BoxedStrategy<Case> {
@@ -53,10 +57,10 @@ fn case_strategy(with_ref: bool) -> BoxedStrategy<Case> {
         proptest::collection::vec((any::<u16>(), proptest::collection::vec(0u8..4, 2..10)), 1..6),
         proptest::collection::vec(any::<bool>(), 1..6),
         prop::sample::select(vec![1u8, 1, 2, 3, 4, 8]),
-        (prop::bool::weighted(0.3), prop::bool::weighted(0.3), any::<bool>(), any::<bool>(), prop_oneof![3 => Just(0u8), 2 => Just(1u8), 1 => Just(2u8), 1 => Just(3u8), 1 => Just(4u8)], prop_oneof![3 => Just(0u8), 1 => Just(1u8), 2 => Just(2u8)], prop::bool::weighted(0.15)),
+        (prop::bool::weighted(0.3), prop::bool::weighted(0.3), any::<bool>(), any::<bool>(), prop_oneof![3 => Just(0u8), 2 => Just(1u8), 1 => Just(2u8), 1 => Just(3u8), 1 => Just(4u8)], prop_oneof![3 => Just(0u8), 1 => Just(1u8), 2 => Just(2u8)], prop::bool::weighted(0.15), prop_oneof![4 => Just(None), 1 => any::<u8>().prop_map(Some)]),
     )
-        .prop_map(move |(k, n_samples, material, lead, tail, sites, orient, threads, (ref_is_sample, ref_rc, ref_wrap, m04, m_sel, ref_gz, twin_flanks))| Case {
-            k, n_samples, material, lead, tail, sites, orient, threads, with_ref, ref_is_sample, ref_rc, ref_wrap, m04, m_sel, ref_gz, twin_flanks,
+        .prop_map(move |(k, n_samples, material, lead, tail, sites, orient, threads, (ref_is_sample, ref_rc, ref_wrap, m04, m_sel, ref_gz, twin_flanks, ref_trim))| Case {
+            k, n_samples, material, lead, tail, sites, orient, threads, with_ref, ref_is_sample, ref_rc, ref_wrap, m04, m_sel, ref_gz, twin_flanks, ref_trim,
         })
         .boxed()
 }
@@ -312,6 +316,16 @@ fn check_ref(c: &Case, ctx: &Ctx) -> Outcome {
     let len = m.ancestor.len();
     let refseq = if c.ref_is_sample { m.fwd[0].clone() } else { m.ancestor.clone() };
     let rseq = if c.ref_rc { model::revcomp(&refseq) } else { refseq.clone() };
+    // a reference that starts inside the samples' sequence, 9..k-2 bases before the first site
+    let trim: usize = match c.ref_trim {
+        Some(sel) if c.k >= 13 => {
+            let pmin = m.sites.iter().map(|(p, _)| if c.ref_rc { len - 1 - p } else { *p }).min().unwrap();
+            pmin.saturating_sub(9 + sel as usize % (c.k - 10))
+        }
+        _ => 0,
+    };
+    let rseq: Vec<u8> = rseq[trim..].to_vec();
+    let rlen = rseq.len();
     let r: Result<(usize, usize), Outcome> = (|| {
         must_ok(&build(ctx, &dir, "x", &m.samples, c.k, true, 1), "ska build")?;
         // Every fifth reference is a consensus-style sequence: an IUPAC ambiguity code stands midway between
@@ -320,7 +334,7 @@ fn check_ref(c: &Case, ctx: &Ctx) -> Outcome {
         let mut rtext = rseq.clone();
         let mut rcodes: Vec<usize> = Vec::new();
         if c.tail % 5 == 0 {
-            let mut ps: Vec<usize> = m.sites.iter().map(|(p, _)| if c.ref_rc { len - 1 - p } else { *p }).collect();
+            let mut ps: Vec<usize> = m.sites.iter().map(|(p, _)| (if c.ref_rc { len - 1 - p } else { *p }) - trim).collect();
             ps.sort();
             for (i, w) in ps.windows(2).enumerate().take(3) {
                 let mid = (w[0] + w[1]) / 2;
@@ -381,7 +395,7 @@ fn check_ref(c: &Case, ctx: &Ctx) -> Outcome {
         let truth: std::collections::BTreeMap<usize, Vec<u8>> = m
             .sites
             .iter()
-            .map(|(p, al)| if c.ref_rc { (len - 1 - p, al.iter().map(|b| model::comp(*b)).collect()) } else { (*p, al.clone()) })
+            .map(|(p, al)| if c.ref_rc { (len - 1 - p - trim, al.iter().map(|b| model::comp(*b)).collect()) } else { (*p - trim, al.clone()) })
             .collect();
         let vcf = parse_lo_vcf(&std::fs::read_to_string(dir.join("out_snps.vcf")).map_err(|e| Outcome::Fail(format!("out_snps.vcf: {e}")))?).map_err(Outcome::Fail)?;
         let exp_names: Vec<String> = m.samples.iter().map(|s| s.0.clone()).collect();
@@ -425,11 +439,11 @@ fn check_ref(c: &Case, ctx: &Ctx) -> Outcome {
             }
         }
         let pg = read_aln(&dir.join("out_pseudo_genomes.fas")).map_err(Outcome::Fail)?;
-        if pg.len() != c.n_samples || pg.iter().any(|x| x.1.len() != len) {
-            return Err(Outcome::Fail(format!("pseudo-genome lengths {:?}, reference length {len}", pg.iter().map(|x| x.1.len()).collect::<Vec<_>>())));
+        if pg.len() != c.n_samples || pg.iter().any(|x| x.1.len() != rlen) {
+            return Err(Outcome::Fail(format!("pseudo-genome lengths {:?}, reference length {rlen}", pg.iter().map(|x| x.1.len()).collect::<Vec<_>>())));
         }
         for (j, (_, s)) in pg.iter().enumerate() {
-            for p0 in 0..len {
+            for p0 in 0..rlen {
                 if called.contains(&p0) {
                     let ch = s[p0];
                     if ch != b'-' && ch != b'N' && ch != truth[&p0][j] {
@@ -458,6 +472,7 @@ fn check_ref(c: &Case, ctx: &Ctx) -> Outcome {
             if called == planted { cl.push("all_planted_called"); }
             if called > 0 { cl.push("some_called"); }
             if c.ref_rc { cl.push("reference_reverse_complemented"); }
+            if trim > 0 { cl.push("reference_starts_inside_the_first_site's_flank"); }
             if c.twin_flanks && m.sites.len() >= 2 { cl.push("two_sites_with_the_same_flanks_and_disjoint_alleles"); }
             if c.ref_is_sample { cl.push("reference_is_a_sample"); }
             if c.ref_gz % 3 == 1 { cl.push("reference_gzip"); }
